@@ -868,7 +868,7 @@ def rule_B5(ctx):
     for call in f.calls():
         fn = call.get("fn")
         if fn in copiers:
-            sites.append((call, fn, strip_casts(call["args"][1])))
+            sites.append((call, fn, strip_casts(call["args"][1]), arrays))
             continue
         h = prog.resolve(f, fn) if fn else None
         if h is None or h.file != f.file or h is f:
@@ -877,12 +877,12 @@ def rule_B5(ctx):
         for hc in h.calls(copiers):
             d_ = strip_casts(hc["args"][1])
             if d_["k"] == "ref" and d_["name"] in hp and hp.index(d_["name"]) < len(call["args"]):
-                sites.append((call, hc["fn"], strip_casts(call["args"][hp.index(d_["name"])])))
+                sites.append((call, hc["fn"], strip_casts(call["args"][hp.index(d_["name"])]), arrays))
             else:
-                sites.append((call, hc["fn"], d_))
+                sites.append((call, hc["fn"], d_, fixed_arrays(prog, h)))      # the helper's own buffers
     if len(sites) < 3:
         raise AnalysisBroken("ex_exec: the calls that split the command were not found")
-    for call, cn, dst in sites:
+    for call, cn, dst, arrays in sites:
         if dst["k"] != "ref" or dst["name"] not in arrays:
             ctx.inconclusive("ex_exec", "part buffer", "destination %s" % key(dst), f.loc(call))
             continue
@@ -899,7 +899,7 @@ def rule_B5(ctx):
                           f.loc(call))
     # the gate's rejecting edge returns
     seen = cfg.reachable_blocks(b.succ[rej])
-    if any(cfg.pos(cl)[0] in seen for cl, _cn, _d in sites):
+    if any(cfg.pos(cl)[0] in seen for cl, _cn, _d, _a in sites):
         ctx.violation("ex_exec", "length gate rejects", "the split is reachable after the gate fired", f.loc(c))
     # copiers write one byte per source byte consumed (plus the terminator): at every store
     # through the destination, (destination advances) - (source advances) <= 0 on the
@@ -941,6 +941,13 @@ def rule_B6(ctx):
         for c in f.calls(("rstr_find", "rset_find")):
             n, g = strip_casts(c["args"][2]), strip_casts(c["args"][3])
             nv = cval(n)
+            if nv is None and n["k"] == "ref" and n.get("cat") == "local":
+                # a local that holds the count (int nsubs = LEN(subs) / 2), never stored again
+                from ..util import resolve_local
+                d_ = resolve_local(f, n)
+                if d_ is not None and cval(strip_casts(d_)) is not None and \
+                        sum(1 for _n, lv_, _o, _r in stores(f.body) if lv_["k"] in ("ref", "var") and lv_.get("name") == n["name"]) == 1:
+                    nv = cval(strip_casts(d_))
             from ..callgraph import is_null
             if is_null(g):
                 if nv == 0:
@@ -962,26 +969,44 @@ def rule_B6(ctx):
                 continue
             ctx.inconclusive(f.name, "matcher out-array", "n = %s grps = %s" % (key(n), key(g)), f.loc(c))
     # replace(): group index read from the replacement text stays inside the caller's array
-    rp = prog.func("replace", file="ex.c")
-    offs_n = None
-    for f in prog.funcs.values():
-        for c in f.calls("replace"):
+    owners_ = []         # (function, array name as seen there, elements)
+    if prog.has_func("replace", file="ex.c"):
+        rp = prog.func("replace", file="ex.c")
+        offs_n = None
+        for f in prog.funcs.values():
+            for c in f.calls("replace"):
+                a = strip_casts(c["args"][3])
+                arr = fixed_arrays(prog, f)
+                if a["k"] == "ref" and a["name"] in arr:
+                    offs_n = arr[a["name"]][0] if offs_n is None else min(offs_n, arr[a["name"]][0])
+        if offs_n is None:
+            raise AnalysisBroken("replace(): caller array not found")
+        owners_.append((rp, rp.params[3]["name"], offs_n))
+    else:
+        # written out in the caller: the function that hands its array to the matcher and also
+        # indexes it with a value read from the replacement text
+        sub_ = prog.func("ec_substitute", file="ex.c")
+        arr = fixed_arrays(prog, sub_)
+        for c in sub_.calls(("rstr_find", "rset_find")):
             a = strip_casts(c["args"][3])
-            arr = fixed_arrays(prog, f)
             if a["k"] == "ref" and a["name"] in arr:
-                offs_n = arr[a["name"]][0] if offs_n is None else min(offs_n, arr[a["name"]][0])
-    if offs_n is None:
-        raise AnalysisBroken("replace(): caller array not found")
-    on = rp.params[3]["name"]
-    for x in rp.walk():
-        if x["k"] == "sub" and key(x["base"]) == on:
-            idx = linearize(x["idx"])
-            v, hy = prove_index(rp, x, idx + Lin(k=1), Lin(k=offs_n))
-            if v == PROVEN:
-                ctx.ok("replace", "offs[%s] < %d" % (key(x["idx"]), offs_n), loc=rp.loc(x))
-            else:
-                ctx.violation("replace", "group reference index",
-                              "offs[%s] is not bounded by the digit test (%s)" % (key(x["idx"]), v), rp.loc(x))
+                owners_.append((sub_, a["name"], arr[a["name"]][0]))
+        if not owners_:
+            raise AnalysisBroken("group references: neither replace() nor the matcher array of ec_substitute found")
+    n_var = 0
+    for rp, on, offs_n in owners_:
+        for x in rp.walk():
+            if x["k"] == "sub" and key(x["base"]) == on and cval(x["idx"]) is None:
+                n_var += 1
+                idx = linearize(x["idx"])
+                v, hy = prove_index(rp, x, idx + Lin(k=1), Lin(k=offs_n))
+                if v == PROVEN:
+                    ctx.ok(rp.name, "offs[%s] < %d" % (key(x["idx"]), offs_n), loc=rp.loc(x))
+                else:
+                    ctx.violation(rp.name, "group reference index",
+                                  "offs[%s] is not bounded by the digit test (%s)" % (key(x["idx"]), v), rp.loc(x))
+    if not n_var:
+        raise AnalysisBroken("group references: no subscript by a value from the replacement text found")
     # regexec receives as many slots as it is told
     rf = prog.func("rset_find", file="rset.c")
     for c in rf.calls("regexec"):
